@@ -122,6 +122,33 @@ for _n, (_c, _p) in REVERTS.items():
     CATALOGUE[_n] = (_p, [("@revert", _c, "")], f"revert of fix {_c}")
 
 
+# Benign changes: behaviour-preserving refactorings a maintainer could make.  Every listed check must stay SILENT (exit 0):
+# a monitor that keys on implementation details instead of the property would alarm here.
+BENIGN = {
+    "benign-c-internal-prefix": (["C15", "C10", "C03"], [("compiler/bitproto/renderer/impls/c/formatter.py", 'return "BpXXXProcess"', 'return "BpYYYEndecode"'),
+                                                         ("compiler/bitproto/renderer/impls/c/formatter.py", 'return "BpXXXJsonFormat"', 'return "BpYYYJson"')],
+                                 "internal C helper prefixes renamed"),
+    "benign-py-proxy-prefix": (["C02", "C16", "C05"], [("compiler/bitproto/renderer/impls/py/renderer.py", '_enum_field_proxy_prefix = "_enum_field_proxy__"', '_enum_field_proxy_prefix = "_bp_enum_int__"')],
+                               "name of the integer proxy attribute of enum fields changed"),
+    "benign-error-texts": (["C08", "C20", "C09"], [("compiler/bitproto/errors.py", '"""Duplicated definition."""', '"""This name is already taken in this scope."""'),
+                                                   ("compiler/bitproto/errors.py", '"""Enum has no field with value 0."""', '"""Please give this enum a zero member."""'),
+                                                   ("compiler/bitproto/errors.py", '"""Invalid array capacity, should between (0, 65536)."""', '"""Array capacity out of range 1..65535."""')],
+                           "diagnostic wording changed"),
+    "benign-c-comments": (["C17", "C15", "C18"], [("compiler/bitproto/renderer/impls/c/renderer_h.py", 'return f"Encode struct {self.message_name} to given buffer s."', 'return f"Encodes struct {self.message_name} into s (s must be zero-initialised)."'),
+                                                  ("compiler/bitproto/renderer/block.py", 'notice = "Code generated by bitproto. DO NOT EDIT."', 'notice = "Code generated by bitproto, do not edit by hand."')],
+                          "comments in generated code reworded"),
+    "benign-go-layout": (["C19", "C10", "C13"], [("compiler/bitproto/renderer/impls/go/renderer.py", 'self.push(f"func (m *{self.message_name}) Size() uint32 {{")\n        self.push_string(f"return {self.message_nbytes}")\n        self.push_string("}")',
+                                                  'self.push(f"func (m *{self.message_name}) Size() uint32 {{")\n        self.push(f"return {self.message_nbytes}", indent=1)\n        self.push("}")')],
+                         "Go Size() method printed on three lines"),
+    "benign-py-runtime-refactor": (["C01", "C02", "C14"], [("lib/py/bitprotolib/bp.py", "    if k == 0:\n        return (1 << c) - 1\n    return (1 << ((k + 1 + c) - 1)) - (1 << ((k + 1) - 1))", "    return ((1 << c) - 1) << k"),
+                                                            ("lib/py/bitprotolib/bp.py", "    return min(n - j, 8 - (j % 8), 8 - (i % 8))", "    return min(n - j, 8 - (j & 7), 8 - (i & 7))")],
+                                   "Python runtime helpers rewritten equivalently"),
+    "benign-c-runtime-refactor": (["C03", "C14", "C06"], [("lib/c/bitproto.c", "static inline int BpMin(int a, int b) { return (a < b) ? a : b; }", "static inline int BpMin(int a, int b) { return (b < a) ? b : a; }"),
+                                                           ("lib/c/bitproto.c", "                    dst[0] = (src[0] >> si) & 0xff;", "                    dst[0] = (unsigned char)(src[0] >> si);")],
+                                  "C runtime expressions rewritten equivalently"),
+}
+
+
 def sh(cmd, **kw):
     return subprocess.run(cmd, text=True, capture_output=True, **kw)
 
@@ -216,7 +243,7 @@ def run_seeded(sid, tier="quick"):
 
 def main():
     ap = argparse.ArgumentParser()
-    ap.add_argument("cmd", choices=["list", "run", "all", "seeded", "seeded-all"])
+    ap.add_argument("cmd", choices=["list", "run", "all", "seeded", "seeded-all", "benign"])
     ap.add_argument("name", nargs="?")
     ap.add_argument("--tier", default="quick")
     ap.add_argument("--keep", action="store_true")
@@ -228,6 +255,22 @@ def main():
         return
     if a.cmd == "run":
         print(json.dumps(run_one(a.name, a.tier, a.keep, a.props.split(",") if a.props else None), indent=1))
+        return
+    if a.cmd == "benign":
+        alarms = []
+        for n, entry in BENIGN.items():
+            if a.name and a.name != n:
+                continue
+            CATALOGUE[n] = entry
+            r = run_one(n, a.tier)
+            print(json.dumps(r))
+            sys.stdout.flush()
+            for p, pr in r.get("results", {}).items():
+                if pr["exit"] != 0:
+                    alarms.append((n, p, pr["exit"], pr["keys"][:3]))
+            if r.get("error") or not r.get("baseline_passes", True):
+                alarms.append((n, "edit", r.get("error"), r.get("baseline_tail")))
+        print("FALSE ALARMS:", alarms)
         return
     if a.cmd == "seeded":
         print(json.dumps(run_seeded(a.name, a.tier), indent=1))
